@@ -257,6 +257,7 @@ def ob_log_counter_lemma(umax, V, timeout_ms):
         ("never beyond the ceiling (no wrap)", z3.ULE(newc, umax)),
         ("at the ceiling: unchanged", z3.Implies(counter == umax, newc == counter)),
         ("exactly +v while the result <= num_reserved+1", z3.Implies(z3.ULE(z(counter) + value, z(nr) + 1), z(newc) == z(counter) + value)),
+        ("the deterministic phase is completed: c + v > num_reserved+1 => result >= num_reserved+1", z3.Implies(z3.UGT(z(counter) + value, z(nr) + 1), z3.UGE(z(newc), z(nr) + 1))),
         ("draws consumed <= v", z3.ULE(newp, value)),
         ("v == 1 above the reserved range: increment iff draw0 < pow(base, -(float(c) - float(num_reserved)))",
          z3.Implies(z3.And(value == 1, z3.UGE(counter, nr), z3.ULT(counter, umax)), (newc == counter + 1) == z3.fpLT(draws.d[0], thr))),
@@ -334,7 +335,8 @@ class CounterContract:
             newp = z3.BitVec(f"lc_ptr{k}", 64)
             z = lambda x: zx(x, 64)
             con = z3.And(z3.UGE(newc, c), z3.ULE(z(newc) - z(c), v), z3.Implies(z3.ULE(z(c) + v, z(n) + 1), z(newc) == z(c) + v),
-                         z3.Implies(z3.ULE(c, u), z3.ULE(newc, u)))
+                         z3.Implies(z3.ULE(c, u), z3.ULE(newc, u)),
+                         z3.Implies(z3.UGT(z(c) + v, z(n) + 1), z3.UGE(z(newc), z(n) + 1)))   # the deterministic phase is completed
             state.pc.append(con)
             me.calls.append(dict(counter=c, new=newc, value=v, nr=n, umax=u))
             return [(state, (Val(types.uint16, newc), Val(types.uint64, newp)))]
